@@ -20,7 +20,7 @@ RULE = (
     "return is compared with the float64 reference (rel 1e-5), plus order-independence, zero-on-equal, non-negativity, "
     "sum-of-steps and B_d invariance. Non-trivial: >=2 types and prediction/target stored in different orders; distinct by case config."
 )
-RULE += " Also: one reused jitted loss per kind, eps in {0.0, 0, 1e-5} on small-norm targets, NumPy-backed operands."
+RULE += " Every sixth case is a near-converged forecast of an offset field (prediction within 1e-3..1e-5 relative of a target of magnitude 50..1000). Also: one reused jitted loss per kind, eps in {0.0, 0, 1e-5} on small-norm targets, NumPy-backed operands."
 ASSUMPTIONS = ["float64 NumPy reference losses vmon/ref/misc.py", "relative tolerance 1e-5 (float32 accumulation)"]
 ANCHORS = ["ginjax.ml.losses:smse_loss", "ginjax.ml.losses:timestep_smse_loss", "ginjax.ml.losses:normalized_smse_loss"]
 MIN_NONTRIVIAL = {"quick": 60, "thorough": 800}
@@ -124,6 +124,16 @@ def run(case, ctx):
         shp = (batch, c * steps) + sp + (D,) * k
         xb[(k, p)] = rng.normal(size=shp).astype(np.float32)
         yb[(k, p)] = (rng.normal(size=shp) + 0.5).astype(np.float32)
+    regime = "generic"
+    if case["i"] % 6 == 4:
+        # a converged forecast of a field with a large offset (temperature in K, pressure in hPa): the prediction is within
+        # 1e-3..1e-5 relative of a target that is far from zero. The float32 inputs are what they are; the loss of THOSE
+        # inputs is well conditioned (x - y is exact for neighbouring floats), so the definition must still be met
+        regime = "near-converged-offset"
+        offset, rel = float(rng.choice([50.0, 300.0, 1000.0])), float(rng.choice([1e-3, 1e-4, 1e-5]))
+        for t in list(xb):
+            yb[t] = (offset + rng.normal(size=yb[t].shape)).astype(np.float32)
+            xb[t] = (yb[t].astype(np.float64) * (1.0 + rel * rng.normal(size=yb[t].shape))).astype(np.float32)
     types = list(xb)
     ox = [types[i] for i in rng.permutation(len(types))]
     oy = [types[i] for i in rng.permutation(len(types))]
@@ -133,7 +143,7 @@ def run(case, ctx):
     jit_rt = bool(rng.integers(0, 2))
     if jit_rt:
         y = jax.jit(lambda m: m)(y)
-    key = {"D": D, "sp": sp, "batch": batch, "steps": steps, "sig": sig, "ox": ox, "oy": list(y.keys()), "jit": jit_rt}
+    key = {"D": D, "sp": sp, "batch": batch, "steps": steps, "sig": sig, "ox": ox, "oy": list(y.keys()), "jit": jit_rt, "regime": regime}
     viols, evals = [], 0
     _mon.take()
     vals = {}
@@ -210,7 +220,7 @@ def run(case, ctx):
     viols = dedup(viols + _mon.take())
     nontrivial = len(types) >= 2 and ox != list(y.keys())
     return result(key, viols, nontrivial, evals=evals, obs={"loss_calls": evals, "orders_differ": int(ox != list(y.keys()))},
-                  hist={"D": D, "ntypes": len(types), "steps": steps, "batch": batch, "jit": jit_rt}, sample={"key": key, "smse": float(vals.get(("smse", "mean"), np.nan))})
+                  hist={"D": D, "ntypes": len(types), "steps": steps, "batch": batch, "jit": jit_rt, "regime": regime}, sample={"key": key, "smse": float(vals.get(("smse", "mean"), np.nan))})
 
 
 def dedup(viols, per=2):
